@@ -8,6 +8,7 @@ import os
 import signal
 import sys
 import threading
+import time
 import traceback
 from fractions import Fraction
 
@@ -34,8 +35,15 @@ class WallClock(BaseException):
 WATCHDOG_S = int(os.environ.get('VERIF_WATCHDOG', '10'))
 
 
+_armed = [False]
+
+
 def _on_alarm(signum, frame):
-    raise WallClock()
+    # the timer repeats (see run()): one 10^11-ballot Warren count of the thorough tier ran for 100 minutes with the
+    # handler installed and no alarm pending - a single raise can get lost, so it is raised again every second until
+    # the count is left
+    if _armed[0]:
+        raise WallClock()
 
 
 class ProgressBound(Exception):
@@ -50,9 +58,13 @@ def budget_prog(E, counter, iter_budget=12):
     deterministic budget for rational arithmetic - iteration count and size of the quota's denominator (never a clock)"""
     rational = E.V.name == 'rational'
 
+    deadline = time.monotonic() + 2 * WATCHDOG_S if WATCHDOG_S > 0 else None
+
     def prog(msg):
         if msg == '.':
             counter[0] += 1
+            if deadline is not None and counter[0] % 1024 == 0 and time.monotonic() > deadline:
+                raise WallClock()       # second line of the watchdog, raised from ordinary code (inconclusive, never a violation)
             if rational and iter_budget is not None:
                 if counter[0] > iter_budget or getattr(E.quota, 'denominator', 1).bit_length() > MAX_BITS:
                     raise BudgetExceeded()
@@ -177,18 +189,24 @@ def run(case, snap=False, renders=False, iter_budget=12, text=None, bound=True, 
     use_alarm = WATCHDOG_S > 0 and threading.current_thread() is threading.main_thread()
     if use_alarm:
         old_handler = signal.signal(signal.SIGALRM, _on_alarm)
-        signal.alarm(WATCHDOG_S)
+        _armed[0] = True
+        signal.setitimer(signal.ITIMER_REAL, WATCHDOG_S, 1.0)
     try:
         try:
             E.count()
             o.stage = 'done'
         finally:
             if use_alarm:
-                signal.alarm(0)
+                _armed[0] = False
+                signal.setitimer(signal.ITIMER_REAL, 0)
                 signal.signal(signal.SIGALRM, old_handler)
     except BudgetExceeded:
         o.budget_hit = True
     except WallClock:
+        if use_alarm:
+            _armed[0] = False
+            signal.setitimer(signal.ITIMER_REAL, 0)
+            signal.signal(signal.SIGALRM, old_handler)
         o.budget_hit = 'wall-clock'
     except Exception as exc:     # pylint: disable=broad-except
         o.exc = exc
